@@ -71,7 +71,8 @@ func (o *Object) Sort() {
 func (o *Object) MarshalJSON() ([]byte, error) {
 	var buf bytes.Buffer
 	buf.WriteByte('{')
-	for i, v := range o.Attributes {
+	first := true
+	for _, v := range o.Attributes {
 		a, err := v.MarshalJSON()
 		if err != nil {
 			return nil, err
@@ -79,9 +80,10 @@ func (o *Object) MarshalJSON() ([]byte, error) {
 		if len(a) == 0 { // as per spec, skip empty attributes
 			continue
 		}
-		if i > 0 {
+		if !first {
 			buf.WriteByte(',')
 		}
+		first = false
 		buf.Write(a)
 	}
 	buf.WriteByte('}')
